@@ -29,6 +29,13 @@ def flatten(t):
         name = t[1].rsplit("::", 1)[-1]
         if name == "chain" and len(t[2]) == 2:
             return flatten(t[2][0]) + flatten(t[2][1])
+        if name == "concat" and len(t[2]) == 1:
+            inner = t[2][0]
+            while isinstance(inner, tuple) and inner and inner[0] == "call" and inner[1].rsplit("::", 1)[-1] in ("as_slice", "as_ref", "deref", "iter") and inner[2]:
+                inner = inner[2][0]
+            if inner[0] == "agg" and inner[1] == "array":
+                return flatten(inner)
+            return [("each", inner)]        # the concatenation of every element of a collection, in order
         if name in TRANSPARENT_WRAPPERS and t[2]:
             return flatten(t[2][0])
     if h == "agg" and t[1] == "array":
